@@ -87,6 +87,27 @@ def long_digest(prop, tier, seed, res):
     res.coverage["evaluations"] += sum(x["frames"] for x in summ["samples"])
 
 
+def seq_protocol_conformance(tier, seed, res):
+    """EncoderSeq.tla bound to the code through what a user-written Source observes: the sequence of read_samples
+    calls and the result (TraceSeq.tla).  Conformance of the call protocol, not a listed property: a trace the
+    machine cannot follow is a MODEL-DIVERGENCE line, the exit code is unaffected."""
+    out = os.path.join(vlib.WORK, "seq", f"seq-{tier}.ndjson")
+    summ = vlib.run_fv(["seqproto", "--tier", tier, "--out", out])
+    r = vlib.run_tlc("TraceSeq.tla", "TraceSeq.cfg", dict(TRACE=out), tag="seqp", workers=1, xmx="2g", timeout=900)
+    verdicts = vlib.verdicts_of(r["out"])
+    passed = sum(1 for v, _ in verdicts.values() if v == "pass")
+    div = [m for v, ms in verdicts.values() if v == "DIVERGED" for m in ms]
+    if "Model checking completed. No error has been found." not in r["out"] and not div:
+        raise ToolError("TraceSeq: TLC failed without a verdict")
+    for m in div[:3]:
+        print(f"MODEL-DIVERGENCE property=C03 source-call-protocol {m[:300]}")
+    res.coverage["source_call_protocol"] = dict(scenarios=summ["cases"], followed_by_EncoderSeq=passed, diverged=len(div),
+                                                note="every read_samples call (argument, result) and the final result of the single-thread entry point "
+                                                     "stepped through EncoderSeq.tla's Read / Verify / EncodeAdd / Finish actions")
+    res.coverage["states"] += r["states"]
+    res.coverage["transitions"] += r["generated"]
+
+
 def choice_conformance(tier, seed, res):
     """How the encoder decides (EncoderChoice.tla) against encode_fixed_size_frame under all 8 subsets of the
     switches of a decision.  Not a listed property: mismatches are MODEL-DIVERGENCE lines, exit code unaffected."""
@@ -167,6 +188,8 @@ def check_stream(prop, tier, seed, only=None, outdir=None, props=None, accept=No
         choice_conformance(tier, seed, res)
     if prop in ("C04", "C08") and not only and props is None:
         long_digest(prop, tier, seed, res)
+    if prop == "C03" and not only and props is None:
+        seq_protocol_conformance(tier, seed, res)
     if prop == "C03":
         # the hash is fed by a separate thread in the multi-thread encoder: controlled schedules in which that
         # thread is starved (the 16-slot process queue fills up, 17..21 blocks), validated against ParEncoder.tla
